@@ -553,4 +553,145 @@ def literalSafe (r : List Char) : Bool :=
   (match r.head? with | some c => !isPySpace c | none => false) &&
   (match r.getLast? with | some c => !isPySpace c | none => false)
 
+
+/-! ## 7. markup that pydoctor itself builds from strings -/
+
+/-! ### 7a. a string default value in a signature (`astbuilder._ValueFormatter`, `pages.format_signature`) -/
+
+/-- `_pyval_repr._str_escape` (same transcription as `Pyval.strEscapeChar`; the surrogate fall-back
+is unreachable, `Char` has no surrogates) -/
+def strEscapeChar (c : Char) : List Char :=
+  if c = '\'' then ['\\', '\'']
+  else if c = '\t' then ['\\', 't']
+  else if c = '\r' then ['\\', 'r']
+  else if c = '\n' then ['\\', 'n']
+  else if c = Char.ofNat 12 then ['\\', 'f']
+  else if c = Char.ofNat 11 then ['\\', 'v']
+  else if c = '\\' then ['\\', '\\']
+  else if c = Char.ofNat 0 then ['\\', 'x', '0', '0']
+  else [c]
+
+def strEscape (s : List Char) : List Char := s.flatMap strEscapeChar
+
+def sigOpen : List Char :=
+  ['(', 'a', '=', '<', 's', 'p', 'a', 'n', ' ', 'c', 'l', 'a', 's', 's', '=', '"', 'r', 's', 't', '-', 'v', 'a', 'r', 'i', 'a', 'b', 'l', 'e', '-', 'q', 'u', 'o', 't', 'e', '"', '>', '\'', '<', '/', 's', 'p', 'a', 'n', '>',
+   '<', 's', 'p', 'a', 'n', ' ', 'c', 'l', 'a', 's', 's', '=', '"', 'r', 's', 't', '-', 'v', 'a', 'r', 'i', 'a', 'b', 'l', 'e', '-', 's', 't', 'r', 'i', 'n', 'g', '"', '>']
+def sigClose : List Char :=
+  ['<', '/', 's', 'p', 'a', 'n', '>', '<', 's', 'p', 'a', 'n', ' ', 'c', 'l', 'a', 's', 's', '=', '"', 'r', 's', 't', '-', 'v', 'a', 'r', 'i', 'a', 'b', 'l', 'e', '-', 'q', 'u', 'o', 't', 'e', '"', '>', '\'', '<', '/', 's', 'p', 'a', 'n', '>', ')']
+def sigBroken : List Char := ['(', '.', '.', '.', ')']
+
+/-- `flatten(format_signature(f))` for `def f(a=<the one-line string s>)`: the colorizer writes the
+escaped string as a docutils text node between two constant quote spans, the translator `encode`s
+it, `html2stan` re-parses the HTML (`(...)` when that raises), the flattener writes the text.
+The constant spans are well-formed, so the re-parse succeeds iff the text part reads. -/
+def formatSigDefault (s : List Char) : List Char :=
+  match html2stanText (encode (strEscape s)) with
+  | some t => sigOpen ++ escapeForContent t ++ sigClose
+  | none => sigBroken
+
+/-! ### 7b. URLs (`Documentable.url`, `urllib.parse.quote`, `linker.taglink`) -/
+
+/-- `urllib.parse.quote` default safe set: `_.-~` letters digits and `/` -/
+def quoteSafe (c : Char) : Bool :=
+  isLetter c || isDigit c || c = '_' || c = '.' || c = '-' || c = '~' || c = '/'
+
+def hexUp (n : Nat) : Char := if n < 10 then Char.ofNat (48 + n) else Char.ofNat (55 + n)
+
+/-- UTF-8 encoding of a code point -/
+def utf8Bytes (n : Nat) : List Nat :=
+  if n < 0x80 then [n]
+  else if n < 0x800 then [0xC0 + n / 64, 0x80 + n % 64]
+  else if n < 0x10000 then [0xE0 + n / 4096, 0x80 + n / 64 % 64, 0x80 + n % 64]
+  else [0xF0 + n / 262144, 0x80 + n / 4096 % 64, 0x80 + n / 64 % 64, 0x80 + n % 64]
+
+def quoteChar (c : Char) : List Char :=
+  if quoteSafe c then [c]
+  else (utf8Bytes c.toNat).flatMap fun b => ['%', hexUp (b / 16), hexUp (b % 16)]
+
+def quote (s : List Char) : List Char := s.flatMap quoteChar
+
+def dotHtml : List Char := ['.', 'h', 't', 'm', 'l']
+def indexHtml : List Char := ['i', 'n', 'd', 'e', 'x', '.', 'h', 't', 'm', 'l']
+
+/-- `Documentable.url`: `isRoot` = the page object is the only root; `anchor` = `some name` when
+the object is not its own page -/
+def docUrl (isRoot : Bool) (pageFullName : List Char) (anchor : Option (List Char)) : List Char :=
+  let page := if isRoot then indexHtml else quote pageFullName ++ dotHtml
+  match anchor with
+  | none => page
+  | some n => page ++ '#' :: quote n
+
+/-- the `href` of `linker.taglink`: same-page links drop the file name -/
+def taglinkHref (pageUrl url : List Char) : List Char :=
+  if !pageUrl.isEmpty && (pageUrl ++ ['#']).isPrefixOf url then url.drop pageUrl.length else url
+
+/-! ### 7c. `node2stan.HTMLTranslator.starttag` and `_valid_identifier` -/
+
+def rstDash : List Char := ['r', 's', 't', '-']
+
+/-- `if not val.startswith('rst-'): val = f'rst-{val}'` (keys `class`, `id`, `name`) -/
+def rstPrefix (v : List Char) : List Char := if rstDash.isPrefixOf v then v else rstDash ++ v
+
+/-- hrefs starting with `#` get the prefix after the `#`; any other href makes the link open in
+`_top` -/
+def mungeHref (v : List Char) : List Char × Bool :=
+  match v with
+  | '#' :: h => (if rstDash.isPrefixOf h then v else '#' :: rstDash ++ h, false)
+  | _ => (v, true)
+
+/-- `str.split()` -/
+def splitWordsGo : List Char → List Char → List (List Char)
+  | [], cur => if cur.isEmpty then [] else [cur.reverse]
+  | c :: r, cur =>
+    if isPySpace c then (if cur.isEmpty then splitWordsGo r [] else cur.reverse :: splitWordsGo r [])
+    else splitWordsGo r (c :: cur)
+
+def splitWords (s : List Char) : List (List Char) := splitWordsGo s []
+
+def langDash : List Char := ['l', 'a', 'n', 'g', 'u', 'a', 'g', 'e', '-']
+
+/-- docutils `starttag`: class words, `language-…` words set aside, duplicates dropped -/
+def classWords : List (List Char) → List (List Char) → List (List Char)
+  | [], acc => acc.reverse
+  | w :: r, acc =>
+    if langDash.isPrefixOf w then classWords r acc
+    else if acc.contains w then classWords r acc else classWords r (w :: acc)
+
+def languages (ws : List (List Char)) : List (List Char) :=
+  (ws.filter fun w => langDash.isPrefixOf w).map fun w => w.drop langDash.length
+
+def joinSp : List (List Char) → List Char
+  | [] => []
+  | [w] => w
+  | w :: r => w ++ ' ' :: joinSp r
+
+def isHeadingTag : List Char → Bool
+  | 'h' :: d :: ds => (d :: ds).all isDigit
+  | _ => false
+
+/-- `HTMLTranslator.starttag({}, tag, '', CLASS=v)` of pydoctor's translator: the value gets the
+`rst-` prefix (for headings it is replaced by `heading`), docutils splits it into words, moves `language-x` to `lang`,
+drops duplicates, and writes what is left through `attval` -/
+def starttagClass (tag v : List Char) : List Char :=
+  let v1 := rstPrefix v
+  -- for headings the override sets `attributes['class']` from `attributes.get('class', '')`: the value given as
+  -- `CLASS=` is not found under that key and docutils' `atts[name.lower()] = value` lets `heading` replace it
+  let v2 := if isHeadingTag tag then ['h', 'e', 'a', 'd', 'i', 'n', 'g'] else v1
+  let ws := splitWords v2
+  let cls := classWords ws []
+  let langs := languages ws
+  '<' :: tag ++
+    (if cls.isEmpty then [] else ' ' :: starttagAttr ['c', 'l', 'a', 's', 's'] (joinSp cls)) ++
+    (match langs with | [] => [] | l :: _ => ' ' :: starttagAttr ['l', 'a', 'n', 'g'] l) ++ ['>']
+
+/-- `HTMLTranslator.starttag({}, 'a', '', href=v)` -/
+def starttagHref (v : List Char) : List Char :=
+  let (h, top) := mungeHref v
+  ['<', 'a', ' '] ++ starttagAttr ['h', 'r', 'e', 'f'] h ++
+    (if top then ' ' :: starttagAttr ['t', 'a', 'r', 'g', 'e', 't'] ['_', 't', 'o', 'p'] else []) ++ ['>']
+
+/-- `_valid_identifier`: `re.sub('[^0-9a-zA-Z_]', '', s)` -/
+def validIdentifierCss (s : List Char) : List Char :=
+  s.filter fun c => isLetter c || isDigit c || c = '_'
+
 end Escape
